@@ -549,6 +549,7 @@ def d1_16(ctx):
                _resp(False, request=m3, tag="c", value=3, data_type="DINT", error="Path segment error")]
     run("multi-service reply with one failed member and one unbuildable member", [multi], {id(multi): _resp(False, responses=members, error="Embedded service error")},
         {0: ("a", 10, "DINT", None), 1: ("b", None, None, "Privilege violation"), 2: ("c", None, None, "Failed to build request path for tag")})
+    run("multi-service reply that is valid as a whole although one member failed", [multi], {id(multi): _resp(True, responses=members[:2], error=None)}, {0: ("a", 10, "DINT", None), 1: ("b", None, None, "Privilege violation")})
     run("multi-service reply, all members valid (a write member reports the written value)", [multi],
         {id(multi): _resp(True, responses=[members[0], _resp(True, request=m2, tag="b", value=2, data_type="DINT", error=None)], error=None)}, {0: ("a", 10, "DINT", None), 1: ("b", 2, "DINT", None)})
 
